@@ -101,6 +101,10 @@ pub struct G01<'a> {
     in_closure_depth: u32,
     /// names that must not be referenced while an internal definition of that name is initialised
     hidden: Vec<String>,
+    /// procedures that are called by already generated code but defined by a later form
+    /// (forward references); their level lies just below the level of their first caller
+    pub forward: Vec<Var>,
+    pub forward_refs: usize,
     /// statistics: bindings that shadow an enclosing binding of the same name
     pub shadowings: usize,
 }
@@ -124,6 +128,8 @@ impl<'a> G01<'a> {
             global_interaction: false,
             in_closure_depth: 0,
             hidden: vec![],
+            forward: vec![],
+            forward_refs: 0,
             shadowings: 0,
         }
     }
@@ -168,7 +174,7 @@ impl<'a> G01<'a> {
     fn visible(&self) -> impl Iterator<Item = &Var> {
         // innermost first; a global shadowed by a local of the same name never occurs
         // because names are unique
-        self.locals.iter().rev().chain(self.globals.iter().rev())
+        self.locals.iter().rev().chain(self.globals.iter().rev()).chain(self.forward.iter())
     }
 
     fn vars_of<F: Fn(&Var) -> bool>(&self, pred: F) -> Vec<Var> {
@@ -793,6 +799,22 @@ impl<'a> G01<'a> {
     fn user_call(&mut self, ty: &Ty, depth: u32) -> Option<Sx> {
         let d = depth.saturating_sub(1);
         let t = ty.clone();
+        // inside a procedure body: occasionally call a procedure that a later form will define
+        if t == Ty::Int && self.cur_level != usize::MAX && self.cur_level >= 2 && self.forward.len() < 2 && self.rng.chance(1, 12) {
+            let name = self.fresh("fw");
+            let nparams = self.rng.usize(3);
+            self.forward.push(Var {
+                name,
+                kind: VKind::Proc(Sig {
+                    params: vec![Ty::Int; nparams],
+                    rest: false,
+                    ret: Ty::Int,
+                }),
+                assignable: false,
+                level: self.cur_level - 1,
+            });
+            self.forward_refs += 1;
+        }
         let cands = self.vars_of(|v| matches!(&v.kind, VKind::Proc(s) if s.ret == t || (t == Ty::Int && s.ret == Ty::Small)));
         if cands.is_empty() {
             return None;
@@ -1346,7 +1368,7 @@ impl<'a> G01<'a> {
                     4 => Ty::Sym,
                     _ => Ty::Int,
                 };
-                let level = self.globals.len() + 1;
+                let level = (self.globals.len() + self.forward.len() + 1) * 2;
                 (
                     self.fresh("f"),
                     Sig {
@@ -1418,6 +1440,7 @@ impl<'a> G01<'a> {
             assignable: false,
             level,
         };
+        self.forward.retain(|f| f.name != name);
         if let Some(pos) = self.globals.iter().position(|g| g.name == name) {
             self.globals[pos] = var;
         } else {
@@ -1451,7 +1474,7 @@ impl<'a> G01<'a> {
     }
 
     fn define_data(&mut self) -> Sx {
-        let level = self.globals.len() + 1;
+        let level = (self.globals.len() + self.forward.len() + 1) * 2;
         self.cur_level = level;
         let (kind, init) = self.binding_init(self.opt.max_depth);
         self.cur_level = usize::MAX;
@@ -1470,7 +1493,7 @@ impl<'a> G01<'a> {
     /// procedure whose internal definition is captured and mutated by the closure it returns;
     /// closures of separate activations must not share the location
     fn define_factory(&mut self) -> Sx {
-        let level = self.globals.len() + 1;
+        let level = (self.globals.len() + self.forward.len() + 1) * 2;
         let name = self.fresh("f");
         let d = self.fresh("d");
         let p = self.fresh("p");
@@ -1512,6 +1535,11 @@ impl<'a> G01<'a> {
         }
         if self.rng.chance(1, 12) {
             return self.define_factory();
+        }
+        if !self.forward.is_empty() && self.rng.chance(1, 3) {
+            let v = self.forward[0].clone();
+            self.global_interaction = true;
+            return self.define_proc(Some(v));
         }
         let nglob = self.globals.len();
         match self.rng.below(if nglob < 2 { 5 } else { 14 }) {
